@@ -11,7 +11,6 @@ use crate::{
   obs::Obs,
   record::{record, Ev, Rec},
   rng::Rng,
-  spec::build_box,
 };
 
 pub fn def() -> PropDef {
@@ -29,7 +28,7 @@ pub fn def() -> PropDef {
 }
 
 fn gen(rng: &mut Rng, tier: Tier) -> Value {
-  json!({ "spec": super::c02::ascii_tree_case(rng, tier), "prelude": super::gen_prelude(rng) })
+  json!({ "spec": super::c02::ascii_tree_case(rng, tier), "prelude": super::gen_prelude(rng), "share_instances": rng.chance(1, 2) })
 }
 
 pub fn check_stream_order(rec: &Rec, mode: &str, obs: &mut Obs) -> usize {
@@ -80,7 +79,7 @@ pub fn check_stream_order(rec: &Rec, mode: &str, obs: &mut Obs) -> usize {
 
 fn check(case: &Value, obs: &mut Obs) {
   let spec = super::spec_of(case);
-  let src = build_box(&spec);
+  let src = super::build_under_test(case, &spec, obs);
   super::run_prelude(case, &src, obs);
   let source = src.source().to_string();
   let end = end_position(&source);
